@@ -9,10 +9,10 @@ import (
 
 // In the normal build the baton is plain channel traffic.
 
-func batonWake(t *task)        { t.wake <- struct{}{} }
-func batonPark(t *task)        { <-t.wake }
+func batonWake(t *task)         { t.wake <- struct{}{} }
+func batonPark(t *task)         { <-t.wake }
 func eventPost(s *Sim, e event) { s.events <- e }
-func quiesce()                 { synctest.Wait() }
+func quiesce()                  { synctest.Wait() }
 
 func eventPoll(s *Sim) (event, bool) {
 	select {
